@@ -3,7 +3,10 @@ package main
 import (
 	"fmt"
 	"go/ast"
+	"go/parser"
 	"go/token"
+	"os"
+	"path/filepath"
 	"sort"
 	"strconv"
 	"strings"
@@ -17,7 +20,8 @@ func init() { families = append(families, family{"C13", genC13}) }
 //   - which validation calls GetCertificates makes before its first os.* call,
 //   - the regular expression of file.IsValidFileName and the names it rejects up front,
 //   - the fixed prefix of dir.X509TrustStoreDir,
-//   - every use GetCertificates makes of its context parameter.
+//   - every use GetCertificates makes of its context parameter,
+//   - package-level variables the functions of the load path write to or hand on (shared state).
 // isParam: is name a parameter of fd?
 func isParam(fd *ast.FuncDecl, name string) bool {
 	for _, p := range fd.Type.Params.List {
@@ -28,6 +32,75 @@ func isParam(fd *ast.FuncDecl, name string) bool {
 		}
 	}
 	return false
+}
+
+// c13SharedUses: non-read uses of package-level variables (of the whole package directory) in the given functions.
+func c13SharedUses(rel string, f *ast.File, fds []*ast.FuncDecl) []string {
+	vars := map[string]bool{}
+	pkgs, err := parser.ParseDir(token.NewFileSet(), filepath.Dir(filepath.Join(repoRoot, rel)), func(fi os.FileInfo) bool {
+		return !strings.HasSuffix(fi.Name(), "_test.go")
+	}, 0)
+	if err != nil {
+		fail("%s: cannot parse the package: %v", rel, err)
+	}
+	for _, p := range pkgs {
+		for _, pf := range p.Files {
+			for _, d := range pf.Decls {
+				if gd, ok := d.(*ast.GenDecl); ok && gd.Tok == token.VAR {
+					for _, sp := range gd.Specs {
+						for _, n := range sp.(*ast.ValueSpec).Names {
+							vars[n.Name] = true
+						}
+					}
+				}
+			}
+		}
+	}
+	var out []string
+	isVar := func(e ast.Expr) (string, bool) {
+		id, ok := e.(*ast.Ident)
+		return exprText(e), ok && vars[id.Name]
+	}
+	for _, fd := range fds {
+		add := func(v, use string) { out = append(out, fd.Name.Name+":"+v+":"+use) }
+		ast.Inspect(fd.Body, func(n ast.Node) bool {
+			switch x := n.(type) {
+			case *ast.AssignStmt:
+				for _, l := range x.Lhs {
+					if v, ok := isVar(l); ok {
+						add(v, "assign")
+					}
+					if ie, ok := l.(*ast.IndexExpr); ok {
+						if v, ok := isVar(ie.X); ok {
+							add(v, "element-assign")
+						}
+					}
+				}
+			case *ast.IncDecStmt:
+				if v, ok := isVar(x.X); ok {
+					add(v, "assign")
+				}
+			case *ast.UnaryExpr:
+				if v, ok := isVar(x.X); ok && x.Op == token.AND {
+					add(v, "address")
+				}
+			case *ast.CallExpr:
+				nm := callName(x)
+				if se, ok := x.Fun.(*ast.SelectorExpr); ok {
+					if v, ok := isVar(se.X); ok && se.Sel.Name != "MatchString" {
+						add(v, "method:"+se.Sel.Name)
+					}
+				}
+				for _, a := range x.Args {
+					if v, ok := isVar(a); ok && nm != "slices.Contains" && nm != "len" {
+						add(v, "arg:"+nm)
+					}
+				}
+			}
+			return true
+		})
+	}
+	return out
 }
 
 func genC13() string {
@@ -134,6 +207,23 @@ func genC13() string {
 		})
 	}
 	fmt.Fprintf(&b, "/-- every use `GetCertificates` makes of its context parameter -/\ndef c13ContextUses : List String := %s\n\n", leanStrList(ctxUses))
+
+	// state shared between calls: package-level variables the functions on the load path write to
+	// (assign, element-assign, append to, take the address of, call a method on, hand to a callee).
+	// Reads, `slices.Contains(v, ..)` and `v.MatchString(..)` / `v.MatchString` on a compiled regular
+	// expression are harmless and left out.
+	var shared []string
+	shared = append(shared, c13SharedUses(tsFile, tf, []*ast.FuncDecl{gc, mustFunc(tf, tsFile, "", "ValidateCertificates"),
+		mustFunc(tf, tsFile, "", "isRootCACertificate"), mustFunc(tf, tsFile, "", "isValidStoreType")})...)
+	{
+		ff := parseFile("internal/file/file.go")
+		shared = append(shared, c13SharedUses("internal/file/file.go", ff, []*ast.FuncDecl{mustFunc(ff, "internal/file/file.go", "", "IsValidFileName")})...)
+		pf := parseFile("dir/path.go")
+		shared = append(shared, c13SharedUses("dir/path.go", pf, []*ast.FuncDecl{mustFunc(pf, "dir/path.go", "", "X509TrustStoreDir")})...)
+		sf := parseFile("dir/fs.go")
+		shared = append(shared, c13SharedUses("dir/fs.go", sf, []*ast.FuncDecl{mustFunc(sf, "dir/fs.go", "sysFS", "SysPath")})...)
+	}
+	fmt.Fprintf(&b, "/-- package-level variables the functions of the load path write to or hand on (function:variable:use) -/\ndef c13SharedState : List String := %s\n\n", leanStrList(shared))
 
 	// validation calls made before the first os.* call
 	var before []string
